@@ -19,8 +19,9 @@
 
     NOT covered by a theorem (correspondence + oracle only, see TESTED_NOT_PROVED in harness/props/C04.py): the
     "all centre hydrogens explicit" branch (default mode: _strip_explicit_h, hydrogen expansion, _explicit_h). *)
-From Coq Require Import List NArith ZArith Bool.
-From SK Require Import lib.Tok lib.LGraph model.C03_Model model.C04_Model proof.C04_Any proof.C04_Check proof.C04_Proof proof.C04_DefaultProof proof.C04_Examples.
+From Coq Require Import List NArith ZArith Bool Permutation.
+From SK Require Import lib.Mono model.C06_Model lib.C06_Spec.
+From SK Require Import lib.Tok lib.LGraph model.C03_Model model.C04_Model proof.C04_Any proof.C04_Check proof.C04_Proof proof.C04_DefaultProof proof.C04_Engine proof.C04_Examples.
 Import ListNotations.
 Local Open Scope Z_scope.
 
@@ -146,3 +147,26 @@ Theorem C04_in_results_symmetric : forall (core invert : bool) (G H : hostg) (s 
     regen_exact T (if invert then H else G) (if invert then G else H) = true.
 Proof. exact in_results_symmetric_all. Qed.
 Print Assumptions C04_in_results_symmetric.
+
+(** first premise of the two theorems above, for strategy ALL: the identity IS among the raw matches.  [tr_host] /
+    [tr_pat] translate substrate and pattern into the graphs of the search-engine model (model/C06_Model.v: node label =
+    codes of element and charge + hydrogen count, edge label = code of the order, as the reactor selects them);
+    [C06_Model.find enum (Cfg 0 0 T strict false)] is the exhaustive strategy without result limit; [vf2_contract] is
+    C06's contract for the one VF2 enumeration call it makes (sound, complete, duplicate-free; monitored by C06's check,
+    and met by the verified enumerator, C06_enumerator_meets_contract).  Proof: C04_identity_match + translation of
+    [match_okb] into C06's [is_mono] + C06's all_exact.  The conclusion compares mappings as sets of pairs
+    ([Permutation]), as Python dicts are.  (comp / bt: comp keeps only matches that put different pattern components
+    into different substrate components and has the strict_cc_count guard, so it does not contain the identity in
+    general; bt = comp or, if that is empty, all.) *)
+Theorem C04_identity_among_raw : forall (core invert : bool) (G H : hostg)
+    (enum : list N -> list N -> list C06_Model.mapping) (T : N) (strict : bool) (rc : its) (l r : molg),
+  pair_wfb G H = true -> no_explicit_H G = true ->
+  rule_of core invert G H = Some (rc, l, r) ->
+  forallb (fun p => 0 <=? m_hc (snd p)) (gnodes (pattern_of l)) = true ->
+  vf2_contract enum (tr_host (substrate invert G H)) (tr_pat (pattern_of l))
+               (node_ids (tr_host (substrate invert G H))) (node_ids (tr_pat (pattern_of l))) ->
+  (lenN (enum (node_ids (tr_host (substrate invert G H))) (node_ids (tr_pat (pattern_of l)))) <= T)%N ->
+  exists m', In m' (C06_Model.find enum (Cfg 0 0 T strict false) (tr_host (substrate invert G H)) (tr_pat (pattern_of l))) /\
+             Permutation (id_map (node_ids (pattern_of l))) m'.
+Proof. exact identity_among_raw. Qed.
+Print Assumptions C04_identity_among_raw.
